@@ -28,7 +28,7 @@ quick_json = [
  {"entry": "HJInt", "args": [[0, 1, 0], [0, 10, 1], [1, 1, 1], [1, 10, 0], [1, 19, 1], [2, 19, 0]]},
  {"entry": "HJUint", "args": [[0, 10], [1, 1], [1, 20], [2, 20]]},
  {"entry": "HJMAC", "product": [[0, 15]]},
- {"entry": "HJUnix", "args": [[0, 1, 14, 0], [1, 1, 13, 0]]},
+ {"entry": "HJUnix", "args": [[0, 1, 14, 0], [1, 1, 13, 0], [1, 0, 4, 0], [2, 0, 3, 1]]},
  {"entry": "HJDuration", "args": [[c, n] for c in range(6) for n in (0, 1)] + [[6, 0], [6, 2]]},
  {"entry": "HJIPv6", "args": [[0], [2], [4]]},
 ]
@@ -37,7 +37,7 @@ thorough_json = [
  {"entry": "HJInt", "args": [[0, d, n] for d in range(1, 11) for n in (0, 1)] + [[k, d, n] for k in (1, 2) for d in ALLD64 for n in (0, 1)]},
  {"entry": "HJUint", "args": [[0, d] for d in range(1, 11)] + [[k, d] for k in (1, 2) for d in range(1, 21)]},
  {"entry": "HJMAC", "product": [[0, 15]]},
- {"entry": "HJUnix", "args": [[u, 1, d, 0] for u in range(4) for d in ALLD64] + [[u, 1, d, 1] for u in range(4) for d in range(1, 7)] + [[u, 0, d, n] for u in range(4) for d in (1, 2) for n in (0, 1)]},
+ {"entry": "HJUnix", "args": [[u, 1, d, 0] for u in range(4) for d in ALLD64] + [[u, 1, d, 1] for u in range(4) for d in range(1, 7)] + [[u, 0, d, n] for u in range(4) for d in (1, 2, 3, 4, 5) for n in (0, 1)]},
  {"entry": "HJDuration", "args": [[c, n] for c in range(7) for n in (0, 1)] + [[6, 2]]},
  {"entry": "HJIPv6", "product": [[0, 5]]},
 ]
@@ -56,6 +56,6 @@ spec = {
   "uuid": "all 2^128 values (16 symbolic bytes)", "ipv4": "all 2^32 addresses", "ipv6": "six address shapes with 2..4 symbolic bytes each (IPv4-mapped ::ffff:a.b.c.d, 2001:db8::X:Y, X::Y, 0:0:X:0:0:Y:0:0, fe80::X, ::X:Y; quick: three of them): the encoder's text decodes back to the same address as IPv6 - NOT all 2^128 addresses", "mac": "length 6: all 2^48 values; thorough also lengths 8 and 20 with four symbolic bytes",
   "unix": "seconds/milli/micro/nano: value -> Time -> value and Time -> text -> Time for every int64 of the listed digit-count classes (quick: seconds 1/10/19 digits both signs, milli/micro/nano 1 digit, milli also 14 digits; thorough: every digit count); the JSON pairs likewise (quick: seconds and milli, 13-14 digits). Negative milli/micro/nano values with more than 6 digits are OUTSIDE the claim (sdiv/srem chains: solver unknown under the cap)"},
  "assumptions": ["strconv's digit-pair table smallsString, jx/uuid hex tables: replaced by arithmetic closed forms only after the closed form was checked against EVERY entry of the real table (verified table summary)", "unique.Make (netip zone interning) modelled as interning by value", "queries with wide division/remainder go first through the engine's integer translation (bit-vector to Int with interval-justified mod elimination, self-checked on every query against the bit-vector evaluator and differentially validated against the bit-vector solvers on ~5000 small queries), then cvc5 --solve-bv-as-int=sum, then z3 5.1 / z3 4.8.12 bit-blasting"],
- "out_of_claim": "JSON NUMBER-form unix timestamps (jx Encoder.Int64 uses a 1000-entry packed digit table) beyond 2 digits (3 digits take 40 s per case, 4 do not finish): the packed three-digit table of jx's encoder combined with the decoder's digit table is not closed under the solver cap, so NOT decided (the string forms and the conv pairs are); float32/float64 (shortest-decimal algorithms, FP theory), time.Format/Parse based formats (date, time, date-time), duration DECODING and conv's duration pair (time.ParseDuration scales fractions in float64), URL, IPv6 addresses outside the six listed shapes, zoned addresses, big.* - not decided by this check"
+ "out_of_claim": "JSON NUMBER-form unix timestamps (jx Encoder.Int64 uses a 1000-entry packed digit table) beyond 5 digits (9 digits take two minutes per case, 13 do not finish): jx's unrolled number reader on top of the packed three-digit table of its encoder is not closed under the solver cap at full width, so NOT decided (the string forms and the conv pairs are); float32/float64 (shortest-decimal algorithms, FP theory), time.Format/Parse based formats (date, time, date-time), duration DECODING and conv's duration pair (time.ParseDuration scales fractions in float64), URL, IPv6 addresses outside the six listed shapes, zoned addresses, big.* - not decided by this check"
 }
 json.dump(spec, open(os.path.join(os.path.dirname(__file__), "check.json"), "w"), indent=0)
